@@ -79,6 +79,7 @@ type Exec struct {
 	countersRegistered bool
 	ancestors map[string][]string
 	curState *State
+	coverSeen map[string]bool
 }
 
 func newExec(p *Program, sp *Specs) *Exec {
@@ -87,7 +88,7 @@ func newExec(p *Program, sp *Specs) *Exec {
 		used: map[string]bool{}, maxPaths: 6000, tids: map[string]int{}, instrOrd: map[ssa.Instruction]int{},
 		covers: map[string]bool{}, known: map[string]Val{}, globals: map[string]bool{}, sliceVals: map[string][]Val{},
 		cellVals: map[string]Val{}, typeCache: map[string]types.Type{}, modCache: map[*ssa.Function]*modSet{},
-		uncovered: map[string]bool{}, closeSites: map[string]bool{}, retCount: map[string]int{}, probes: map[string]map[string]Val{}, ancestors: map[string][]string{}}
+		uncovered: map[string]bool{}, closeSites: map[string]bool{}, retCount: map[string]int{}, probes: map[string]map[string]Val{}, ancestors: map[string][]string{}, coverSeen: map[string]bool{}}
 }
 
 func (ex *Exec) unsupported(format string, a ...interface{}) {
